@@ -1011,6 +1011,9 @@ func imageTypeKey(img ir.ImageType) uint64 {
 	// storage format (8 bits), sampled scalar kind (4 bits).
 	// Storage format is needed because different formats produce different OpTypeImage
 	// instructions (different image format and potentially different sampled type).
+	// The key uses the SPIR-V image format that is written, not the IR format:
+	// two IR formats that are written alike (bgra8unorm is written Rgba8) must
+	// share one OpTypeImage - non-aggregate types may not be declared twice.
 	key := uint64(img.Dim) & 0x07
 	if img.Arrayed {
 		key |= 0x08
@@ -1020,7 +1023,7 @@ func imageTypeKey(img ir.ImageType) uint64 {
 	}
 	key |= (uint64(img.Class) & 0x07) << 5
 	if img.Class == ir.ImageClassStorage {
-		key |= uint64(img.StorageFormat) << 8
+		key |= (uint64(StorageFormatToImageFormat(img.StorageFormat)) & 0xFF) << 8
 	}
 	if img.Class == ir.ImageClassSampled {
 		key |= uint64(img.SampledKind) << 16
